@@ -38,8 +38,8 @@ class Node:
 LEAF = {"col", "lit", "scol", "slit", "true", "false"}
 UNARY = {"neg", "not", "isnull", "notnull", "cast", "subq", "sisnull", "snotnull", "del"}
 BINARY = {"add", "sub", "mul", "idiv", "mod", "xsub", "xmul", "xadd", "eq", "ne", "lt", "le", "gt", "ge", "and", "or",
-          "concat", "like", "nlike", "seq", "sne", "starts", "ends", "contains", "upd"}
-TERNARY = {"between", "nbetween", "case", "qeq", "qne", "qlt", "qle", "qgt", "qge"}
+          "concat", "like", "nlike", "seq", "sne", "starts", "ends", "contains", "upd", "upds"}
+TERNARY = {"between", "nbetween", "case", "qeq", "qne", "qlt", "qle", "qgt", "qge", "upda", "updb"}
 NARY = {"in", "notin", "tin", "tnotin"}
 
 
@@ -125,8 +125,22 @@ def family(chk, name, level=None, sample_n=12, emit_sub=False, invariants=("Theo
     level = (0 if chk.quick else 1) if level is None else level
     cfgt = tlc.cfg(constants=dict(Family=tlc.q(name), Level=level, SampleN=sample_n, EmitSub=emit_sub),
                    invariants=list(invariants))
-    r = tlc.run("SqlExpr", cfgt, os.path.join(chk.work, "tlc-" + name), workers=workers,
-                timeout=timeout or (300 if chk.quick else 1500), extra=["-seed", str(chk.seed)], keep_stdout=False)
+    # development aid only (never set by ./check users): VERIF_SX_CACHE=<dir> reuses TLC's output for an unchanged spec + cfg
+    cdir = os.environ.get("VERIF_SX_CACHE")
+    r = None
+    if cdir:
+        import hashlib
+        import pickle
+        h = hashlib.sha1((open(os.path.join(tlc.SPECS, "SqlExpr.tla")).read() + cfgt + str(chk.seed)).encode()).hexdigest()[:16]
+        cfile = os.path.join(cdir, "%s-%s.pkl" % (name, h))
+        if os.path.exists(cfile):
+            r = pickle.load(open(cfile, "rb"))
+    if r is None:
+        r = tlc.run("SqlExpr", cfgt, os.path.join(chk.work, "tlc-" + name), workers=workers,
+                    timeout=timeout or (600 if chk.quick else 2400), extra=["-seed", str(chk.seed)], keep_stdout=False)
+        if cdir:
+            os.makedirs(cdir, exist_ok=True)
+            pickle.dump(r, open(cfile, "wb"))
     if r.violated:
         chk.machinery("SqlExpr.tla: theorem %s violated for family %s (specification inconsistent)" % (r.violated, name))
     rows = strlits = None
